@@ -376,7 +376,7 @@ fn initial() -> Vec<(Vec<String>, State)> {
 pub fn run(ctx: &Ctx) {
     let evs = events();
     let inits = initial();
-    let depth = ctx.tier.pick(4, 6);
+    let depth = ctx.tier.pick(4, 5);
     let hist_json = |hist: &[u16], last: Option<usize>| {
         let mut ops: Vec<Value> = hist[1..].iter().map(|&e| evs[e as usize].to_json()).collect();
         if let Some(l) = last {
